@@ -126,7 +126,7 @@ def showRtcps (ps : List Rtcp) : String := showList (ps.map showRtcp) " "
 
 def bufOp? (s : String) : Option BufOp :=
   match s.splitOn ":" with
-  | ["s", q, t] => do some (.push (← u16? q) (← nat? t))
+  | ["s", q, t] => do some (.sent 7 (← u16? q) (← nat? t))     -- the harness' primary stream has SSRC 7
   | ["x", a, q, t] => do some (.sent (← u32? a) (← u16? q) (← nat? t))
   | ["r", a] => do some (.setRtx (← u32? a))
   | ["q", t, qs] => do some (.query (← nat? t) (← mapM? u16? (listOf qs ";")))
